@@ -444,8 +444,9 @@ class C06(Spec):
         'IEEE-754 binary64 round-to-nearest with unit round-off 2^-53 for + - * / in the normal range (assumed, not '
         'proved; the float-level stream of this check exercises it with the real interpreter)',
         'the discrete composition is proved over the concrete queue model of C02-C04 composed with the extractor model of C05 '
-        '(e2e_composed_*; Helper/C06_Compose.lean mirrors simulate() below); with pauses it assumes that no two notified trials '
-        'share (start sample, key) (C05 Valid: distinct dictionary keys); the queue itself is exercised here as real code',
+        '(e2e_composed_*; Helper/C06_Compose.lean mirrors simulate() below), for every run, dictionary keys (t0, key) re-used '
+        'after a pause on a trial start included (C05 ValidSeq is derived from the queue model); the queue itself is exercised '
+        'here as real code',
         'modelled, not verified: NumPy/PipelineData slicing and concatenation',
     ]
     ASSUMPTIONS = [
